@@ -3,12 +3,18 @@ Line-protocol driver for the heap model of NumPy vector arrays (`Glue/Heap.lean`
 
   one operation per line in, one answer per line out.  Integers may be negative; `_` stands for Python's `None` in slices.
 
-  new v <m|g> <f1,f2,…> <n> <n·k row-major ints>     v = vector.array(…)   (field names: the generic dtype names)
+  new v <m|g> <f1,f2,…> <shape> <n·k row-major ints>  v = vector.array(records, dtype=[(f1, float), …]).reshape(shape)
+                                                      (field names: the generic dtype names, ANY order, extras allowed;
+                                                       shape: `6`, `2x3`, `2x1x3`, `-` for 0-d; n = product)
   slice v w <lo|_> <hi|_> <stp|_>                     w = v[lo:hi:stp]
+  reshape v w <shape>                                 w = v.reshape(shape)
+  transpose v w                                       w = v.T
+  sub v w <i,j,…|-> <0|1>                             w = v[i, j, …]   (1: with a trailing Ellipsis, w = v[i, j, …, ...])
+  imul v k | iadd v w | isub v w                      v *= k | v += w | v -= w
   mask v w <0/1 string|->                             w = v[numpy.array(bits, bool)]
   fancy v w <i,j,…|->                                 w = v[numpy.array([i, j, …], int)]
   view v w | copy v w | deepcopy v w | pickle v w
-  int v i                                             v[i]
+  int v <i,j,…|->                                     v[i, j, …]   (`-`: v[()])
   get v name                                          v[name]
   set v name <x,y,…|->                                v[name] = [x, y, …]
   setslice v lo hi srclo                              v[lo:hi] = v[srclo:srclo+(hi-lo)]
@@ -17,8 +23,8 @@ Line-protocol driver for the heap model of NumPy vector arrays (`Glue/Heap.lean`
   dump                                                the whole state
   reset                                               forget everything (between histories)
 
-  answers: `ok` | `vals 1,2,3` | `elem MomentumObject3D x,y,z 1,2,3` | `err <Exception>` | `bad-op`
-           dump: `v=<Class>;<fields>;<records r1/r2/…>;<name:column name:column …> | … # a~b c~d`
+  answers: `ok` | `vals 1,2,3` | `elem MomentumObject3D x,y,z 1,2,3` | `arr <Class> <shape>` | `err <Exception>` | `bad-op`
+           dump: `v=<Class>;<fields>;<shape>;<records r1/r2/… in C order>;<name:column name:column …> | … # a~b c~d`
                  (variables sorted by name; after `#` the pairs of variables whose arrays share memory)
 
 Run:  cd /verif/lean && lake env lean --run VectorModel/Driver/Heap.lean < ops.txt
@@ -38,6 +44,10 @@ def ints? (s : String) : Option (List Int) := (csv s).mapM String.toInt?
 def bits? (s : String) : Option (List Bool) :=
   if s == "-" then some [] else s.toList.mapM fun c => if c == '1' then some true else if c == '0' then some false else none
 
+def shape? (s : String) : Option (List Nat) := if s == "-" then some [] else (s.splitOn "x").mapM String.toNat?
+
+def showShape (sh : List Nat) : String := if sh.isEmpty then "-" else "x".intercalate (sh.map toString)
+
 def chunks {β : Type} (k : Nat) : Nat → List β → List (List β)
   | 0, _ => []
   | n + 1, l => l.take k :: chunks k n (l.drop k)
@@ -46,13 +56,22 @@ def validName (s : String) : Bool := !s.isEmpty && s.all Char.isAlphanum
 
 def parse (line : String) : Option (Op Int) :=
   match (line.splitOn " ").filter (· ≠ "") with
-  | "new" :: v :: fl :: fs :: n :: rest => do
+  | "new" :: v :: fl :: fs :: sh :: rest => do
     let mom ← if fl == "m" then some true else if fl == "g" then some false else none
-    let n ← n.toNat?
+    let sh ← shape? sh
+    let n := prod sh
     let fields := csv fs
     let vals ← rest.mapM String.toInt?
     if !validName v || vals.length ≠ n * fields.length || fields.isEmpty then none
-    else some (.new v ⟨mom, fields⟩ (chunks fields.length n vals))
+    else some (.new v ⟨mom, fields⟩ sh (chunks fields.length n vals))
+  | ["reshape", v, w, sh] => do if !validName w then none else some (.reshape v w (← shape? sh))
+  | ["transpose", v, w] => if !validName w then none else some (.transpose v w)
+  | ["sub", v, w, is, e] => do
+    let ell ← if e == "1" then some true else if e == "0" then some false else none
+    if !validName w then none else some (.sub v w (← ints? is) ell)
+  | ["imul", v, k] => do some (Op.iscale v (← k.toInt?))
+  | ["iadd", v, w] => some (Op.iadd v w)
+  | ["isub", v, w] => some (Op.isub v w)
   | ["slice", v, w, lo, hi, stp] => do
     if !validName w then none else some (.slice v w (← optInt? lo) (← optInt? hi) (← optInt? stp))
   | ["mask", v, w, b] => do if !validName w then none else some (.mask v w (← bits? b))
@@ -61,7 +80,7 @@ def parse (line : String) : Option (Op Int) :=
   | ["copy", v, w] => if !validName w then none else some (.copy v w)
   | ["deepcopy", v, w] => if !validName w then none else some (.deepcopy v w)
   | ["pickle", v, w] => if !validName w then none else some (.pickle v w)
-  | ["int", v, i] => do some (.intIndex v (← i.toInt?))
+  | ["int", v, is] => do some (.intIndex v (← ints? is))
   | ["get", v, name] => some (.getName v name)
   | ["set", v, name, vals] => do some (.setName v name (← ints? vals))
   | ["setslice", v, lo, hi, src] => do some (.setSlice v (← lo.toInt?) (← hi.toInt?) (← src.toInt?))
@@ -77,13 +96,14 @@ def showOpts (l : List (Option Int)) : String :=
   ",".intercalate (l.map fun | some x => toString x | none => "?")
 
 def showShown (x : Shown Int) : String :=
-  s!"{x.name}={x.ty.tag};{",".intercalate x.ty.fields};{"/".intercalate (x.recs.map showInts)};" ++
+  s!"{x.name}={x.ty.tag};{",".intercalate x.ty.fields};{showShape x.shape};{"/".intercalate (x.recs.map showInts)};" ++
     " ".intercalate (x.cols.map fun (n, c) => s!"{n}:{showOpts c}")
 
 def showOut : Out Int → String
   | .ok => "ok"
   | .vals l => "vals " ++ showOpts l
-  | .elem ty rec => s!"elem {ty.objTag} {",".intercalate ty.fields} {showInts rec}"
+  | .elem ty rec => s!"elem {ty.objTag} {",".intercalate ty.coords} {showInts rec}"
+  | .arr ty sh => s!"arr {ty.tag} {showShape sh}"
   | .err e => "err " ++ e.str
   | .dump vars shares =>
     " | ".intercalate (vars.map showShown) ++ " # " ++ " ".intercalate (shares.map fun (a, b) => s!"{a}~{b}")
